@@ -303,7 +303,13 @@ func (v *vdrRun) expectState(f *core.VerifVdrFork, removed []string, rep *vdrRep
 }
 
 func (v *vdrRun) modelChecks() {
-	pre, pk := v.preFinal, v.postKill
+	v.modelChecksOn(v.preFinal, v.postKill, "final VDRKill", true)
+}
+
+// modelChecksOn: `pk` is the state right after a Pipestance.VDRKill performed
+// in state `pre` (the final one, or one performed when the pipestance was
+// found failed, before it is restarted).
+func (v *vdrRun) modelChecksOn(pre, pk *vdrSnapshot, label string, lifeReplay bool) {
 	if pre == nil || pk == nil {
 		return
 	}
@@ -336,7 +342,9 @@ func (v *vdrRun) modelChecks() {
 			continue
 		}
 		if f.State != core.Complete {
-			v.hist("model-skip-fork-state-" + string(f.State))
+			if lifeReplay {
+				v.hist("model-skip-fork-state-" + string(f.State))
+			}
 			continue
 		}
 		dir := v.rel(f.Path)
@@ -430,9 +438,15 @@ func (v *vdrRun) modelChecks() {
 				v.forkDisk(f, pre.Tree, false), ran, repSoFar, doneHex, "k"}
 			v.res.Checks = append(v.res.Checks, VdrModelCheck{Name: "partialVdrKill_step", Req: req,
 				Expect: v.expectState(g, v.goneUnder(f, pre.Tree, pk.Tree), postRep, newPaths),
-				What:   "one partialVdrKill of " + f.Fqname + " (final VDRKill) from the real bookkeeping state: removed entries, report totals and remaining bookkeeping"})
-		} else {
+				What:   "one partialVdrKill of " + f.Fqname + " (" + label + ") from the real bookkeeping state: removed entries, report totals and remaining bookkeeping"})
+			if !lifeReplay {
+				v.hist("model-step-at-failure")
+			}
+		} else if lifeReplay {
 			v.hist("model-step-skipped-already-final")
+		}
+		if !lifeReplay {
+			continue
 		}
 		// ---- (B) the whole life of the fork replayed from the initial bookkeeping
 		init, ok := v.initView[f.Node]
@@ -446,6 +460,15 @@ func (v *vdrRun) modelChecks() {
 		sort.Strings(args)
 		an := v.preArgNames(dir, outs, args)
 		evs := []string{"y2", "e", "c"}
+		if v.spec.FailConsumer != "" && v.faultKey != "" && v.retried {
+			// a consumer failed, a kill pass ran while it awaited its retry, it was reset
+			fn := v.faultKey
+			if i := strings.Index(fn, ".fork"); i > 0 {
+				fn = fn[:i]
+			}
+			evs = append(evs, "f"+hx(fn), "k", "r"+hx(fn))
+			v.hist("life-replay-with-failed-consumer")
+		}
 		for _, d := range done {
 			evs = append(evs, "d"+hx(d))
 		}
